@@ -86,16 +86,54 @@ func refIntegrity(outs map[string][]byte, publicPath string) [][2]string {
 	return bad
 }
 
+// a name that carries a content hash: `-` + 8 characters of esbuild's base32 alphabet before the extension(s)
+var reHashedName = regexp.MustCompile(`-[A-Z2-7]{8}(\.[A-Za-z0-9]+)*$`)
+
+// hashPresence: when the entry template asks for a [hash], the file emitted for every entry point carries one
+// (an empty hash gives `name-.ext`, a name that no longer identifies the bytes)
+func hashPresence(outs map[string][]byte, entries []string, entryT string) [][2]string {
+	var bad [][2]string
+	if !strings.Contains(entryT, "[hash]") {
+		return nil
+	}
+	for _, e := range entries {
+		base := strings.TrimSuffix(path.Base(e), path.Ext(e))
+		found := false
+		for p := range outs {
+			b := path.Base(p)
+			if strings.HasPrefix(b, base+"-") && !strings.HasSuffix(b, ".map") && !strings.HasSuffix(b, ".LEGAL.txt") {
+				found = true
+				if !reHashedName.MatchString(b) {
+					bad = append(bad, [2]string{"entry-name-without-hash", fmt.Sprintf("entry point %s is emitted as %q although the entry template is %q", e, p, entryT)})
+				}
+			}
+		}
+		if !found {
+			bad = append(bad, [2]string{"entry-output-missing", fmt.Sprintf("no output named after entry point %s with template %q", e, entryT)})
+		}
+	}
+	return bad
+}
+
 func init() {
 	searches["c18-hash"] = func(r *gen.Rand, count int, workdir string, rep *Report) {
-		rep.Rule = "random module graphs with 2-3 entry points, splitting, dynamic import, a file-loader asset and [hash] in entry/chunk/asset names; each graph is built, then rebuilt after one single-point edit (string literal in one module, comment-only edit, asset bytes, appended statement) and after an option change; oracles: a path emitted by both builds has identical bytes; every relative import / public-path URL / sourceMappingURL names an emitted file; no `<16 base64url chars>[AC]<8 digits>` placeholder survives. non-trivial = the edit changed at least one output"
+		rep.Rule = "random module graphs with 2-3 entry points, splitting, dynamic import, a file-loader asset, a copy-loader file (imported and/or an entry point itself) and entry and asset name templates each with or without [hash] (chunk names always hashed: unhashed chunk names collide by design); each graph is built, then rebuilt after one single-point edit (string literal in one module, comment-only edit, asset bytes, appended statement) and after an option change; oracles: a hashed path emitted by both builds has identical bytes; every entry point is emitted under a name with a non-empty hash when the entry template has [hash]; every relative import / public-path URL / sourceMappingURL names an emitted file; no `<16 base64url chars>[AC]<8 digits>` placeholder survives. non-trivial = the edit changed at least one output"
 		for i := 0; i < count; i++ {
 			gr := r.Fork()
 			ents := 2 + gr.Intn(2)
 			o := gen.GraphOpts{Modules: ents + 1 + gr.Intn(5), Entries: ents, AllowDyn: true, AllowCycle: gr.Bool(), AllowStar: gr.Bool(), AvoidInPlaceOrder: true}
 			g := gen.GenGraph(gr, o)
 			mergeStats(rep, "gen:", g.Stats)
-			v := "fmt=esm,splitting,entrynames=[name]-[hash],chunknames=c/[name]-[hash],assetnames=a/[name]-[hash]"
+			// each of the three templates has a [hash] or not, independently (a template without one gives names
+			// that may keep their bytes or not; the oracles below look at names that carry a hash)
+			entryT, chunkT, assetT := "[name]-[hash]", "c/[name]-[hash]", "a/[name]-[hash]"
+			if gr.Chance(1, 4) {
+				entryT = "[name]"
+			}
+			if gr.Chance(1, 3) {
+				assetT = "a/[name]"
+			}
+			v := "fmt=esm,splitting,entrynames=" + entryT + ",chunknames=" + chunkT + ",assetnames=" + assetT
 			pub := ""
 			if gr.Chance(1, 3) {
 				pub = "https://cdn.example/x/"
@@ -119,6 +157,18 @@ func init() {
 				files["m1.js"] = "import assetURL from \"./asset.bin\";\np(\"asset\", typeof assetURL);\n" + files["m1.js"]
 				v += ",loader:.bin=file"
 			}
+			entries := append([]string{}, g.Entries...)
+			if gr.Chance(1, 3) {
+				// a copied file: imported, or an entry point itself (then it is named by the ENTRY template)
+				files["data.dat"] = "DATA-" + fmt.Sprint(gr.Intn(1000))
+				v += ",loader:.dat=copy"
+				if gr.Bool() {
+					files["m1.js"] = "import \"./data.dat\";\n" + files["m1.js"]
+				}
+				if gr.Chance(2, 3) {
+					entries = append(entries, "data.dat")
+				}
+			}
 			// a two-level chain of dynamic imports reached from the first entry point, and a function with a
 			// local whose name only shows up in the source map's "names"
 			files["dl1.js"] = "p(\"dl1:start\");\nexport const q = import(\"./dl2.js\");\nexport function zz(alpha) { const beta = alpha + 1; return beta * alpha; }\np(zz(2));\n"
@@ -137,14 +187,17 @@ func init() {
 			}
 			dirA := filepath.Join(workdir, fmt.Sprintf("c18-%d-a", i))
 			dirB := filepath.Join(workdir, fmt.Sprintf("c18-%d-a", i)) // same absolute location: paths must not matter anyway
-			A, errA := c18Build(dirA, files, g.Entries, v)
+			A, errA := c18Build(dirA, files, entries, v)
 			rep.Evaluations++
 			if errA != "" {
-				rep.violate("c18/build-failed", errA, c18Replay{Files: files, Entries: g.Entries, OptName: v})
+				rep.violate("c18/build-failed", errA, c18Replay{Files: files, Entries: entries, OptName: v})
 				continue
 			}
 			for _, b := range refIntegrity(A, pub) {
-				rep.violate("c18/"+b[0], b[1], c18Replay{Files: files, Entries: g.Entries, OptName: v, Diff: b[1]})
+				rep.violate("c18/"+b[0], b[1], c18Replay{Files: files, Entries: entries, OptName: v, Diff: b[1]})
+			}
+			for _, b := range hashPresence(A, entries, entryT) {
+				rep.violate("c18/"+b[0], b[1], c18Replay{Files: files, Entries: entries, OptName: v, Diff: b[1]})
 			}
 			// single-point edits
 			nEdits := 3
@@ -213,7 +266,7 @@ func init() {
 					files2[target] = strings.Replace(files2[target], "export let", "export  let", 1)
 					edit = "whitespace-only edit in " + target
 				}
-				B, errB := c18Build(dirB, files2, g.Entries, v2)
+				B, errB := c18Build(dirB, files2, entries, v2)
 				if errB != "" {
 					rep.stat("edit-build-failed")
 					continue
@@ -222,9 +275,11 @@ func init() {
 				changed := false
 				for p, ca := range A {
 					if cb, ok := B[p]; ok {
-						if string(ca) != string(cb) {
+						if string(ca) != string(cb) && !reHashedName.MatchString(p) {
+							rep.stat("unhashed-name-changed-bytes")
+						} else if string(ca) != string(cb) {
 							rep.violate("c18/same-name-different-bytes", fmt.Sprintf("%q is emitted by both builds under the same name with different contents (edit: %s)", p, edit),
-								c18Replay{Files: files, Files2: files2, Entries: g.Entries, OptName: v + " -> " + v2, Edit: edit, Diff: p})
+								c18Replay{Files: files, Files2: files2, Entries: entries, OptName: v + " -> " + v2, Edit: edit, Diff: p})
 						}
 					} else {
 						changed = true
@@ -238,7 +293,10 @@ func init() {
 					pub2 = "https://other.example/y/"
 				}
 				for _, b := range refIntegrity(B, pub2) {
-					rep.violate("c18/"+b[0], b[1], c18Replay{Files: files2, Entries: g.Entries, OptName: v2, Diff: b[1]})
+					rep.violate("c18/"+b[0], b[1], c18Replay{Files: files2, Entries: entries, OptName: v2, Diff: b[1]})
+				}
+				for _, b := range hashPresence(B, entries, entryT) {
+					rep.violate("c18/"+b[0], b[1], c18Replay{Files: files2, Entries: entries, OptName: v2, Diff: b[1]})
 				}
 			}
 			if len(rep.Samples) < 2 {
@@ -264,10 +322,15 @@ func init() {
 		for _, b := range refIntegrity(A, "") {
 			rep.violate("replay/"+b[0], b[1], nil)
 		}
+		if m := regexp.MustCompile(`entrynames=([^,]*)`).FindStringSubmatch(vs[0]); m != nil {
+			for _, b := range hashPresence(A, cr.Entries, m[1]) {
+				rep.violate("replay/"+b[0], b[1], nil)
+			}
+		}
 		if cr.Files2 != nil {
 			B, _ := c18Build(filepath.Join(workdir, "c18r"), cr.Files2, cr.Entries, vs[len(vs)-1])
 			for p, ca := range A {
-				if cb, ok := B[p]; ok && string(ca) != string(cb) {
+				if cb, ok := B[p]; ok && string(ca) != string(cb) && reHashedName.MatchString(p) {
 					rep.violate("replay/same-name-different-bytes", p, nil)
 				}
 			}
